@@ -353,3 +353,21 @@ add("C20", "P", CLI, "    for coordinate_file in sorted(coordinate_files):\n    
 add("C06", "B", B, "        if _accept_metropolis(chi2, chi2_new):",
     "        if not (chi2_new > chi2 and np.random.rand() > 0.01*chi2/chi2_new):",
     "acceptance written out in negative form: a NaN energy is accepted")
+# ----------------------------------------------------------------------------- R1.5 explicit-loop form (DESIGN 10.19)
+_SEARCH_OLD = "        distances = [(euclidean(targetatom.position, ref_pos(index)), index)\n                     for index in self._refsystems]\n"
+_SEARCH_LOOP = ("        distances = []\n        for index in self._refsystems:\n            dist = euclidean(targetatom.position, ref_pos(index))\n"
+                "            if dist < %s:\n                return index\n            distances.append((dist, index))\n")
+_RADIUS_INIT = (E, "        self._target_coordinates: Dict[int, np.ndarray] = {}\n", "        self._target_coordinates: Dict[int, np.ndarray] = {}\n        self._capture_radius = 0.\n")
+add("C01", "B", E, _SEARCH_OLD, _SEARCH_LOOP % "self._capture_radius",
+    "early exit inside a capture radius accumulated from each anchor's own frame (bonded pairs only)",
+    more=[_RADIUS_INIT,
+          (E, "                self._refsystems[hash(atom)] = coord_syst\n",
+           "                self._refsystems[hash(atom)] = coord_syst\n                self._capture_radius = min(self._capture_radius or np.inf, euclidean(positions[0], positions[1]) / 2)\n")])
+add("C01", "B", E, _SEARCH_OLD, _SEARCH_LOOP % "0.05", "early exit inside a fixed capture length")
+add("C01", "P", E, _SEARCH_OLD, _SEARCH_LOOP % "0.", "early exit that is never taken (threshold 0)")
+add("C01", "P", E, _SEARCH_OLD, _SEARCH_LOOP % "self._capture_radius",
+    "early exit inside half the smallest separation over ALL anchor pairs",
+    more=[_RADIUS_INIT,
+          (E, "    def _make_map(self):\n",
+           "    def _set_capture_radius(self):\n        pts = [self._refmolecule[i].position for i in self._refsystems]\n"
+           "        self._capture_radius = min([euclidean(a, b) for k, a in enumerate(pts) for b in pts[k + 1:]], default=0.) / 2\n\n    def _make_map(self):\n")])
